@@ -176,15 +176,24 @@ def labelings(case):
 @register
 class CHECK(Check):
     pid = "C09"
-    technique = ("Lean 4 theorems over the Grid model (integer lattice, scaling, basis map, arg-min, relabelling) + "
-                 "compiled-driver correspondence with GridSearch.fit/predict driven through an exact recording learner")
-    level_text = ("Theorems (all inputs): the integer grid is exactly the sign-restricted L1 ball/sphere (sound+complete), "
-                  "duplicate-free, strictly growing in the radius (termination of the while-True search, least radius), "
-                  "cube bound justifying the float starting point; the mapped multipliers are grid_size many, non-negative, "
-                  "of L1 norm <= grid_limit, and pairwise distinct when every basis column is a distinct unit vector; "
-                  "first-arg-min spec; weighted 0/1 error on relabelled data = const - sum w_i h_i and the resulting arg-min "
-                  "equivalence. Tie: GridSearch on generated data sets vs the compiled model (lambda_vecs_, best_idx_, "
-                  "relabelling seen by the learner) and a Fraction oracle of every clause of the property.")
+    technique = ("Lean 4 theorems over the Grid model, which is DEFINED over expressions lifted from the source on every run "
+                 "(Generated/GridSrc.lean: lattice recursion, search loop, truncation, scaling, clipping, basis map order, "
+                 "relabelling, trade-off loss, arg-min, delegation) + compiled-driver correspondence with GridSearch.fit/predict "
+                 "driven through an exact recording learner and with _GridGenerator alone")
+    level_text = ("Theorems (all inputs): the recursion of accumulate_integer_grid over the lifted expressions enumerates exactly "
+                  "the sign-restricted L1 ball/sphere (sound+complete), duplicate-free, in strictly increasing lexicographic "
+                  "order (truncation keeps the least grid_size points), strictly growing in the radius (termination of the "
+                  "while-True search, least radius); the float starting point of the search is an input: from ANY start the loop "
+                  "stops at max(start, least radius), a start that does not exceed the exact value of the lifted expression "
+                  "(decidable predicate evaluated on the float estimate of every case) gives the SAME grid, any other start a "
+                  "coarser but still valid one; the mapped multipliers are grid_size many, non-negative, of L1 norm <= grid_limit "
+                  "(= grid_limit exactly when the norm is forced), pairwise distinct when every basis column is a distinct unit "
+                  "vector, also after a grid_offset shift; zero vector characterised; first-arg-min spec for any list of "
+                  "(objective, gamma) records, equal to a running arg-min, predict delegates to it; weighted 0/1 error on "
+                  "relabelled data = const - sum w_i h_i and the resulting arg-min equivalence. Tie: lifter (refuses unknown "
+                  "shapes; an edited expression re-checks or breaks the bridge lemmas) + GridSearch on generated data sets vs "
+                  "the compiled model started at the source's own float estimate (lambda_vecs_ incl. grid_offset, best_idx_, "
+                  "combined weights / relabelling / dummy rule seen by the learner) and a Fraction oracle of every clause.")
     design_ref = "DESIGN.md section 4, C09"
     quick_cases = 450
     thorough_cases = 12000
@@ -199,7 +208,8 @@ class CHECK(Check):
             "pattern, forced or free L1 norm, grid_size 1..125); thorough adds the exhaustive enumeration of all patterns x "
             "grid_size 1..100 (a test); distinct = distinct case; non-trivial = grid with >= 2 distinct trained labelings or "
             ">= 3 grid points")
-    explanation = ("theorems over Model/Grid.lean; the two hypotheses of the distinctness / L1 theorems (unitBasis, basisOK) are "
+    explanation = ("theorems over Model/Grid.lean (defined over Generated/GridSrc.lean); model-vs-oracle disagreements are "
+                   "HARNESS-ERROR only while the lifted fragments equal the pinned text, a broken tie otherwise; the two hypotheses of the distinctness / L1 theorems (unitBasis, basisOK) are "
                    "evaluated by the driver on the bases exported from every fitted estimator; GridSearch.fit returning None "
                    "is C19's business and ignored here")
     trusted = ("the reduction identity err + lambda.gamma = const - (1/n) sum w_i h_i is C07's theorem; here it is checked "
@@ -493,6 +503,10 @@ class CHECK(Check):
                   f"{proto.mat([[gm[k] for k in P.index] for gm in gams])}")
         for cwt, owt in self._parts:
             ls.append(f"grid.weights {proto.b(span)} {proto.lst(cwt)} {proto.lst(owt)}")
+        if self._parts:
+            ls.append(f"grid.fitloop {proto.b(span)} {proto.rat(F(case['cw']))} {proto.lst(self._parts[0][1])} "
+                      f"{proto.mat([c for c, _ in self._parts])} {proto.mat([p['train'] for p in o['predictors']])} "
+                      f"{proto.lst(objs)} {proto.mat([[gm[k] for k in P.index] for gm in gams])}")
         return ls
 
     # ---------------------------------------------------------------- judging
@@ -708,6 +722,23 @@ class CHECK(Check):
             elif case["moment"] != "BGL" and all(x > TOL for x in wr) and (t[3] == "1") != p["dummy"]:
                 probs.append(Problem("correspondence", f"grid point {i}: DummyClassifier used = {p['dummy']} but the relabelled "
                                                        f"data has {len(set(yr))} distinct label(s)", "C09.relabel (dummy rule)"))
+        # the whole loop (fitLoop) replayed with the recorded labelings as the base learner
+        k = 2 + len(o["predictors"])
+        robust = case["moment"] != "BGL" and all(abs(x) > TOL for w in ws for x in w)
+        if robust and k < len(mo):
+            t = mo[k].split(" ")
+            want = losses.index(min(losses))
+            if t[0] in ("bad-op", "err:select") or len(t) != 3:
+                probs.append(Problem(mo_kind(), f"model fitLoop: {mo[k][:80]}", mo_rel("C09.fit_spec")))
+            else:
+                trained = [[int(v) for v in r.split(",")] for r in t[1].split(";")]
+                if trained != [p["train"] for p in o["predictors"]]:
+                    probs.append(Problem("correspondence", "the labelings trained by the model loop (dummy rule + recorded "
+                                                           "learner) differ from the predictors' training predictions",
+                                         "C09.fit_spec (trainAt)"))
+                elif int(t[0]) != want:
+                    probs.append(Problem(mo_kind(), f"model fitLoop best index {t[0]} != oracle first arg-min {want}",
+                                         mo_rel("C09.fit_spec (selection)")))
         return probs
 
     def _zero_weight_points(self, case):
